@@ -477,6 +477,14 @@ func (w *World) checkCloseOracles(v *Node) {
 				if tf.RAt+rec.StallIn >= rec.Deadline {
 					continue // read only after the caller had given up: nobody to answer
 				}
+				if l.WriterBlockedAt(outDir, rec.Deadline) {
+					// whatever the node had to say (its refusal is an error frame like any other)
+					// sat in its send queue behind a socket write that could not proceed: the
+					// caller's side was not reading (a caller busy in its own code with a full
+					// receive buffer blocks its connection's reader). Not the node's doing.
+					w.probe("C07.reply-stuck-behind-blocked-writer")
+					continue
+				}
 				w.probe("C07.request-dropped-without-reply")
 				why := ""
 				if v.ErrOnClosedConn[tf.F.ID] > 0 {
